@@ -247,8 +247,21 @@ def main(rep):
             argv.append(("a%d" % n, "bm %d %s" % (g, " ".join(ops))))
             n += 1
             nbm += 1
+        # file names of every shape over {a, b, '.', '/'} (only dots, dots at both ends, empty components) handed to the
+        # extension and store-path code as exactly sized strings: every scan stays inside the string
+        next_ = 0
+        for ln in range(1, 6 if rep.tier == "quick" else 7):
+            for cs in itertools.product("ab./", repeat=ln):
+                argv.append(("a%d" % n, "ext " + hexs("".join(cs))))
+                n += 1
+                next_ += 1
+        for nm in ("...", "/w/...", "/w/d/....", "/w/.", "/w/..a", "/w/a..", "/" + "x" * 28 + "/..."):
+            argv.append(("a%d" % n, "sp %s %s %s %d" % (hexs("/st"), hexs(nm.lstrip("/")), hexs("v1"), 0)))
+            n += 1
+            next_ += 1
         total += len(argv)
-        dist["argv"] = len(argv) - ncpp - nbm
+        dist["names"] = next_
+        dist["argv"] = len(argv) - ncpp - nbm - next_
         dist["root_pairs"] = ncpp
         dist["pid_tables"] = nbm
         if not found:
@@ -257,7 +270,7 @@ def main(rep):
                 if "implementation driver exited" in p:
                     culprit = next(((c, t) for c, t in argv if not impl.get(c)), (None, ""))
                     rep.violation("memory", {"case": culprit[0], "driver": "pure", "script": [culprit[1]],
-                                             "what": "the sanitizer build died while parsing a command line, comparing two watch roots or using the table of process ids (first input without an answer: %s): %s" % (culprit[1], p[-600:])})
+                                             "what": "the sanitizer build died while parsing a command line, comparing two watch roots, using the table of process ids or taking a file name apart (first input without an answer: %s): %s" % (culprit[1], p[-600:])})
                     found = True
                     break
             if not found:
